@@ -198,11 +198,21 @@ func ruleRingModulus(c *Ctx, r *Report, prefix string, side string) {
 	fns := c.ModFuncs("lzma")
 	sort.Slice(fns, func(i, j int) bool { return FnName(fns[i]) < FnName(fns[j]) })
 	total := 0
+	seenTop := map[*ssa.BinOp]bool{}
 	for _, fn := range fns {
 		if !inScope(fn) || fn.Blocks == nil {
 			continue
 		}
-		sites := findWrapSites(c, fn)
+		// the function and the new helpers it calls (a wrap moved into a helper is still a wrap of this function)
+		var sites []wrapSite
+		for _, g := range c.Group(fn) {
+			for _, ws := range findWrapSites(c, g) {
+				if !seenTop[ws.top] {
+					seenTop[ws.top] = true
+					sites = append(sites, ws)
+				}
+			}
+		}
 		for i, s := range sites {
 			total++
 			key := FnName(fn) + "#" + itoa(i)
